@@ -58,7 +58,7 @@ def type_str(t):
 def err_str(e):
     if isinstance(e, ValueConstraintViolatedError):
         c = e.constraint
-        return f"ValueConstraintViolatedError path={path_str(c.constraint_path)} type={c.tpm_type.__name__} value={int(e.value)}"
+        return f"ValueConstraintViolatedError path={path_str(c.constraint_path)} type={c.tpm_type.__name__} value={'None' if e.value is None else int(e.value)}"
     if isinstance(e, SizeConstraintExceededError):
         c = e.constraint
         return (f"SizeConstraintExceededError cpath={path_str(c.constraint_path)} max={int(c.size_max)} "
@@ -378,6 +378,46 @@ def make_pcapng(payloads, link="ip"):
         pkt = bytes(ip) if link == "ip" else bytes(dpkt.ethernet.Ethernet(data=ip))
         w.writepkt(pkt, ts=1.0 + i)
     return f.getvalue()
+
+
+def impl_seq(data):
+    """the messages of a stream decoded one by one (strict): a command where the previous message ended, then a response
+    under the command code and the `encrypt` session attribute of the command as decoded — boundaries, code and flag all
+    taken from the bytes themselves.  Returns the concatenated event lines (without pull counts) and the final result line
+    ('R end' if the input ends at a message boundary)."""
+    out = []
+    off = 0
+    cc = None
+    enc = False
+    turn = "Command"
+    while off < len(data):
+        block = impl_dec("S", turn, cc if turn == "Response" else None, enc if turn == "Response" else False, data[off:])
+        evs = [l for l in block if l[0] in "MW"]
+        out += [l.split(" ", 2)[0] + " " + l.split(" ", 2)[2] for l in evs]
+        res = block[-1]
+        if res.startswith("R done"):
+            consumed = len(data) - off
+        elif res.startswith("R superfluous"):
+            rest = res.split(" ")[2][len("rest="):]
+            consumed = len(data) - off - len(rest) // 2
+        else:
+            out.append(res)
+            return out
+        if turn == "Command":
+            cc = None
+            enc = False
+            for l in evs:
+                p = l.split(" ")
+                if p[2] == ".commandCode" and p[4] != "...":
+                    cc = int(p[4])
+                if p[2].startswith(".authorizationArea[") and p[2].endswith(".sessionAttributes") and p[4] != "...":
+                    enc = enc or bool(int(p[4]) & 0x40)
+            turn = "Response"
+        else:
+            turn = "Command"
+        off += consumed
+    out.append("R end")
+    return out
 
 
 def impl_trim(payloads, link):
